@@ -198,4 +198,98 @@ theorem mem_externalLocs {ex : List Char → PathType → Bool} {p : List Char} 
           simp only [Bool.false_eq_true, if_false, List.mem_singleton] at h
           exact ⟨rfl, hs, by simpa using e, h⟩
 
+/-! ### lemmas shared by Props/C03.lean and Props/C03Render.lean (moved here so that both can use them) -/
+
+theorem groupVar_inj {ns ns' name name' : List Char} {i j : Nat}
+    (hns : '_' ∉ ns) (hns' : '_' ∉ ns') (hn : '_' ∉ name) (hn' : '_' ∉ name')
+    (hg : GoodFor '_' (safeVar ns) = true) (hg' : GoodFor '_' (safeVar ns') = true)
+    (h : groupVar ns name i = groupVar ns' name' j) : ns = ns' ∧ name = name' ∧ i = j := by
+  simp only [groupVar, groupName, lit, safeVar_append, safeVar_digits] at h
+  have e0 : safeVar "group_".toList = "group_".toList := by decide
+  have e1 : safeVar "__".toList = ['_', '_'] := by decide
+  have e2 : safeVar "_rule".toList = "_rule".toList := by decide
+  rw [e0, e1, e2] at h
+  simp only [List.append_assoc] at h
+  have h1 := List.append_cancel_left h
+  simp only [List.cons_append, List.nil_append] at h1
+  obtain ⟨a1, a2⟩ := dsep_inj hg hg' h1
+  -- a2 : safeVar name ++ "_rule" ++ digits i = safeVar name' ++ "_rule" ++ digits j ; split from the right
+  have r := congrArg List.reverse a2
+  simp only [List.reverse_append] at r
+  have e3 : "_rule".toList.reverse = 'e' :: "lur_".toList := by decide
+  rw [e3] at r
+  simp only [List.cons_append, List.append_assoc] at r
+  have nd : ∀ n, 'e' ∉ (digits n).reverse := fun n m =>
+    not_mem_digits_of_not_isDigit (c := 'e') (by decide) (List.mem_reverse.mp m)
+  obtain ⟨c1, c2⟩ := append_sep_inj (nd i) (nd j) r
+  have c3 := List.append_cancel_left c2
+  have c4 : safeVar name = safeVar name' := by simpa using congrArg List.reverse c3
+  have c5 : digits i = digits j := by simpa using congrArg List.reverse c1
+  exact ⟨safeVar_injective_of_no_underscore hns hns' a1, safeVar_injective_of_no_underscore hn hn' c4,
+    digits_injective c5⟩
+
+theorem groupVar_all_isVarChar {ns name : List Char} (idx : Nat)
+    (hns : ns.all isNameChar = true) (hn : name.all isNameChar = true) :
+    (groupVar ns name idx).all isVarChar = true := by
+  simp only [groupVar, groupName, lit, safeVar_append, safeVar_digits, List.all_append, Bool.and_eq_true]
+  exact ⟨⟨⟨⟨⟨by decide, isVarChar_safeVar hns⟩, by decide⟩, isVarChar_safeVar hn⟩, by decide⟩, isVarChar_digits idx⟩
+
+theorem serverExternalLocs_nodup (rules : List (List Char × PathType)) (hnd : rules.Nodup) :
+    (serverExternalLocs rules).Nodup := by
+  unfold serverExternalLocs
+  rw [List.nodup_iff_pairwise_ne, List.pairwise_flatMap]
+  constructor
+  · intro r _
+    rcases r with ⟨p, t⟩
+    cases t with
+    | exact => simp [externalLocs]
+    | «prefix» =>
+      simp only [externalLocs]
+      split
+      · simp
+      · split <;> split <;> simp
+  · refine List.Pairwise.imp_of_mem ?_ hnd
+    intro r s hr hs hne x hx y hy hxy
+    subst hxy
+    rcases r with ⟨p, t⟩
+    rcases s with ⟨q, u⟩
+    have hx' := mem_externalLocs hx
+    have hy' := mem_externalLocs hy
+    simp only [decide_eq_false_iff_not] at hx' hy'
+    rcases hx' with ⟨rfl, rfl⟩ | ⟨rfl, h1, rfl⟩ | ⟨rfl, h1, h2, rfl⟩ | ⟨rfl, h1, h2, rfl⟩ <;>
+    rcases hy' with ⟨rfl, e⟩ | ⟨rfl, g1, e⟩ | ⟨rfl, g1, g2, e⟩ | ⟨rfl, g1, g2, e⟩ <;>
+    simp only [Prod.mk.injEq, true_and, Bool.true_eq_false, Bool.false_eq_true, false_and] at e
+    all_goals first
+      | (subst e; exact hne rfl)
+      | (subst e; exact h2 hs)
+      | (subst e; exact g2 hr)
+      | (have := List.append_cancel_right e; subst this; exact hne rfl)
+      | (subst e; simp at h1)
+      | (subst e; simp at g1)
+
+theorem internalLoc_not_external (rules : List (List Char × PathType)) (i j : Nat) :
+    (false, internalLocPath i j) ∉ serverExternalLocs rules := by
+  intro h
+  simp only [serverExternalLocs, List.mem_flatMap] at h
+  obtain ⟨⟨p, t⟩, _, hk⟩ := h
+  have hlast : (internalLocPath i j).getLast? ≠ some '/' := by
+    simp only [internalLocPath, lit]
+    rw [List.getLast?_append]
+    intro e
+    have hne : (digits j).getLast? ≠ none := by
+      intro hn
+      exact digits_ne_nil j (List.getLast?_eq_none_iff.mp hn)
+    cases hd : (digits j).getLast? with
+    | none => exact hne hd
+    | some c =>
+      rw [hd] at e
+      have e' : c = '/' := by simpa using e
+      subst e'
+      exact not_mem_digits_of_not_isDigit (by decide) (List.mem_of_getLast? hd)
+  rcases mem_externalLocs hk with ⟨_, e⟩ | ⟨_, h1, e⟩ | ⟨_, _, _, e⟩ | ⟨_, _, _, e⟩
+  · simp at e
+  · simp only [Prod.mk.injEq, true_and] at e; rw [e] at hlast; exact hlast h1
+  · simp only [Prod.mk.injEq, true_and] at e; rw [e] at hlast; simp at hlast
+  · simp at e
+
 end NGF.Mangle
